@@ -44,3 +44,4 @@ func Implies(a, b bool) bool
 func YAMLAssume(valid bool)
 func TestFileDir() string
 func TestFileBase() string
+func Chdir()
